@@ -16,8 +16,8 @@ from hypothesis import strategies as st
 
 from . import gen_tsl as G
 
-ELSIZE = {"i8": 1, "i16": 2, "i32": 4, "i64": 8, "f32": 4}
-ELTS = ["i8", "i16", "i32", "i64", "f32"]
+ELSIZE = {"i8": 1, "i16": 2, "i32": 4, "i64": 8, "f32": 4, "i1": 1, "f16": 2, "f64": 8}
+ELTS = ["i8", "i16", "i32", "i64", "f32"] * 4 + ["i1", "f16", "f64"]
 
 
 def _q(x):
@@ -53,7 +53,7 @@ def one_alloc(draw, tier="quick"):
     k = draw(st.integers(0, 9))
     base = dict(elt=elt, align=align, space=space, src=src)
     if k <= 1:
-        n = draw(st.integers(1, 4))
+        n = draw(st.sampled_from([0, 1, 1, 1, 2, 2, 2, 3, 3, 4]))
         shape = [draw(st.sampled_from([1, 1, 2, 3, 4, 5, 7, 8, 16, 17])) for _ in range(n)]
         dyn = [draw(st.integers(0, 2)) == 0 for _ in range(n)]
         return dict(base, kind="none", shape=shape, dyn=dyn)
@@ -189,7 +189,7 @@ def memories(draw):
             continue
         cap = draw(st.sampled_from([64, 100, 100, 256, 1000, 4096, 65536]))
         if k <= 10:
-            start = 256 * draw(st.sampled_from([0, 1, 16, 4096, 0x100000, 0x800000 - 256]))
+            start = 256 * draw(st.sampled_from([0, 1, 16, 4096, 0x100000, 0x800000 - 256, 0x800000]))
         else:
             start = draw(st.sampled_from([4, 8, 100, 0x10000010, 0x10000040, 1000]))
         out.append(dict(name=dflt["name"], start=start, cap=cap))
@@ -206,11 +206,12 @@ def _size_spec(draw, cap):
         return dict(fill=draw(st.sampled_from([-1, 0, 0, 1])))
     if k <= 2:
         return dict(size=draw(st.sampled_from([1, 2, 3, 8, 13, 16, 40, 64])))
-    hi = max(1, cap // draw(st.sampled_from([2, 3, 4, 8, 16])))
+    hi = max(1, cap // draw(st.sampled_from([3, 4, 8, 8, 16, 16, 32])))
     return dict(size=draw(st.integers(1, hi)))
 
 
 _ALIGN_POOL = ALIGNS * 12 + [10, 14, 3, 10] + [None, 0]
+_ALIGN_POOL_SMALL = [1] * 16 + [8] * 22 + [64] * 5 + [256] + [10, 14, 3, 10] + [None, 0]
 
 
 @st.composite
@@ -219,7 +220,7 @@ def _alloc_stmt(draw, mems, dyn_ok=False, main=1):
     a = dict(op="alloc", mem=mem, elt=draw(st.sampled_from(["i8", "i8", "i32"])), rank2=draw(st.sampled_from([0, 0, 2, 3, 4])),
              aty=draw(st.sampled_from(["i64", "i64", "i32"])))
     a.update(draw(_size_spec(mems[mem]["cap"])))
-    a["align"] = draw(st.sampled_from(_ALIGN_POOL))
+    a["align"] = draw(st.sampled_from(_ALIGN_POOL if mems[mem]["cap"] >= 1000 else _ALIGN_POOL_SMALL))
     if dyn_ok and draw(st.sampled_from([True, False, False])):
         a["dynsize"] = True
     return a
